@@ -41,7 +41,7 @@ func recvNamed(t types.Type) *types.Named {
 }
 
 func funcIs(f *types.Func, pkg, recv, name string) bool {
-	if f == nil || f.Name() != name {
+	if f == nil || baselineFuncName(f) != name {
 		return false
 	}
 	if f.Pkg() == nil || f.Pkg().Path() != pkg {
@@ -216,9 +216,9 @@ func DynParam(name string) Callee {
 		for i := 0; i < 3; i++ {
 			switch x := v.(type) {
 			case *ssa.Parameter:
-				return x.Name() == name
+				return BaselineParamName(x) == name
 			case *ssa.FreeVar:
-				return x.Name() == name
+				return BaselineVarName(x.Name(), x.Parent()) == name
 			case *ssa.UnOp:
 				v = x.X
 				continue
@@ -291,9 +291,19 @@ func IsNilConst(v ssa.Value) bool {
 }
 
 // stripConv removes interface/type conversions.
+// paramSubst: while a helper function is examined on behalf of one of its call sites (wrapper lifting), a parameter of
+// the helper stands for the argument passed at that site, so that value patterns written for the caller keep matching.
+var paramSubst = map[*ssa.Parameter]ssa.Value{}
+
 func stripConv(v ssa.Value) ssa.Value {
-	for i := 0; i < 6; i++ {
+	for i := 0; i < 8; i++ {
 		switch x := v.(type) {
+		case *ssa.Parameter:
+			if a, ok := paramSubst[x]; ok {
+				v = a
+				continue
+			}
+			return v
 		case *ssa.ChangeInterface:
 			v = x.X
 		case *ssa.MakeInterface:
@@ -355,6 +365,28 @@ func FieldV(typ, field string) VPat {
 		}
 		return false
 	}}
+}
+
+// FieldBase returns the struct value (or pointer) a field read v is taken from, with conversions, loads and lifted helper
+// parameters resolved; nil when v is not a field read.
+func FieldBase(v ssa.Value) ssa.Value {
+	v = stripConv(v)
+	for i := 0; i < 4; i++ {
+		switch x := v.(type) {
+		case *ssa.UnOp:
+			if x.Op == token.MUL {
+				v = x.X
+				continue
+			}
+			return nil
+		case *ssa.FieldAddr:
+			return stripConv(x.X)
+		case *ssa.Field:
+			return stripConv(x.X)
+		}
+		return nil
+	}
+	return nil
 }
 
 func fieldNameIs(t types.Type, idx int, typ, field string) bool {
@@ -420,16 +452,16 @@ func ParamV(name string) VPat {
 		v = stripConv(v)
 		switch x := v.(type) {
 		case *ssa.Parameter:
-			return x.Name() == name
+			return BaselineParamName(x) == name
 		case *ssa.FreeVar:
-			return x.Name() == name
+			return BaselineVarName(x.Name(), x.Parent()) == name
 		case *ssa.UnOp: // captured variable load / parameter spilled to a cell because a closure captures it
 			if fv, ok := x.X.(*ssa.FreeVar); ok {
-				return fv.Name() == name
+				return BaselineVarName(fv.Name(), fv.Parent()) == name
 			}
-			if a, ok := x.X.(*ssa.Alloc); ok && a.Comment == name {
+			if a, ok := x.X.(*ssa.Alloc); ok {
 				for _, prm := range a.Parent().Params {
-					if prm.Name() == name {
+					if prm.Name() == a.Comment && BaselineParamName(prm) == name {
 						return true
 					}
 				}
@@ -767,3 +799,107 @@ func OriginV(inner VPat) VPat {
 		return rec(v, 0, &hit, map[ssa.Value]bool{}) && hit
 	}}
 }
+
+// OrLeaves decomposes a boolean value into the operands of a (short-circuit or bitwise) disjunction: a || b compiles to
+// phi(true [on the edge where a holds], b); nested disjunctions are flattened. A value that is not a disjunction is its
+// own single leaf.
+func OrLeaves(v ssa.Value) []ssa.Value {
+	var out []ssa.Value
+	var rec func(v ssa.Value, depth int)
+	rec = func(v ssa.Value, depth int) {
+		if depth > 6 {
+			out = append(out, v)
+			return
+		}
+		switch x := v.(type) {
+		case *ssa.BinOp:
+			if x.Op == token.OR || x.Op == token.LOR {
+				rec(x.X, depth+1)
+				rec(x.Y, depth+1)
+				return
+			}
+		case *ssa.Phi:
+			isOr := false
+			for _, e := range x.Edges {
+				if c, ok := ConstBool(e); ok && c {
+					isOr = true
+				}
+			}
+			if isOr {
+				blk := x.Block()
+				for i, e := range x.Edges {
+					if c, ok := ConstBool(e); ok && c {
+						// the edge is taken when the predecessor's condition holds
+						pred := blk.Preds[i]
+						if iff := ifOf(pred); iff != nil {
+							atom, neg := condAtom(iff.Cond)
+							if !neg && pred.Succs[0] == blk {
+								rec(atom, depth+1)
+								continue
+							}
+						}
+						out = append(out, e)
+						continue
+					}
+					rec(e, depth+1)
+				}
+				return
+			}
+		}
+		out = append(out, v)
+	}
+	rec(v, 0)
+	return out
+}
+
+// TimeOrder is the check "earlier is before later", spelled earlier.Before(later) or later.After(earlier); pass says
+// on which outcome the effect is allowed.
+func TimeOrder(desc string, earlier, later VPat, pass Polarity) Check {
+	return Check{Desc: desc, Pass: pass, Values: func(fn *ssa.Function) []ssa.Value { return TimeOrderSites(fn, earlier, later) }}
+}
+
+// TimeOrderSites returns the results of the calls in fn that compare earlier with later in that order.
+func TimeOrderSites(fn *ssa.Function, earlier, later VPat) []ssa.Value {
+	var out []ssa.Value
+	m := func(p VPat, v ssa.Value) bool {
+		if p.M(v) || p.M(stripConv(v)) {
+			return true
+		}
+		// a time.Time held in / loaded through a pointer (e.g. *cred.ExpirationDate)
+		if u, ok := stripConv(v).(*ssa.UnOp); ok && u.Op == token.MUL {
+			return p.M(u.X) || p.M(stripConv(u.X))
+		}
+		return false
+	}
+	for _, b := range fn.Blocks {
+		for _, in := range b.Instrs {
+			c, ok := in.(*ssa.Call)
+			if !ok {
+				continue
+			}
+			f := c.Common().StaticCallee()
+			if f == nil || f.Pkg == nil || f.Pkg.Pkg.Path() != "time" || len(c.Common().Args) != 2 {
+				continue
+			}
+			recv, arg := c.Common().Args[0], c.Common().Args[1]
+			switch f.Name() {
+			case "Before":
+				if m(earlier, recv) && m(later, arg) {
+					out = append(out, c)
+				}
+			case "After":
+				if m(later, recv) && m(earlier, arg) {
+					out = append(out, c)
+				}
+			}
+		}
+	}
+	return out
+}
+
+// M0 reports whether pattern other is the constant-zero pattern (used to recognise "… == 0" rules).
+func (p VPat) M0(other VPat) bool {
+	return other.Desc == "const" && other.M(zeroConst)
+}
+
+var zeroConst = ssa.NewConst(constant.MakeInt64(0), types.Typ[types.Int])
